@@ -4,6 +4,7 @@ CONSTANTS
   Vals <- Vals12
   MaxList = 2
   MaxEnt = 3
+  SrcMode = "full"
 INIT Init
 NEXT Next
 INVARIANT ReprInv
